@@ -122,6 +122,46 @@ def chk_impl(EoN, sim, cases):
     return res
 
 
+def run_seeded_case(EoN, case):
+    """one case of the seeded battery: (bad, plain, full)"""
+    import random as pyrandom
+    gc = case['gc']; kind = case['kind']; p = case['seeded']['p']; seed = case['seeded']['seed']
+    kw = dict(initial_infecteds=list(case['i0']), tmin=float(case['tmin']))
+    if case['tmax'] is not None: kw['tmax'] = float(case['tmax'])
+    if case['r0'] is not None: kw['initial_recovereds'] = list(case['r0'])
+    f = {'DSIR': lambda **k: EoN.discrete_SIR(gc.G, args=(p,), **k), 'BSIR': lambda **k: EoN.basic_discrete_SIR(gc.G, p, **k),
+         'SIS': lambda **k: EoN.basic_discrete_SIS(gc.G, p, **k), 'PSIR': lambda **k: EoN.percolation_based_discrete_SIR(gc.G, p, **k)}[kind]
+    try:
+        pyrandom.seed(seed); arrs = f(return_full_data=False, **kw)
+        pyrandom.seed(seed + 1); inv = f(return_full_data=True, **kw)
+        plain = {'rows': R.canon_arrays(arrs)}
+        hist, trans = R.canon_full(inv, gc, DL.CODE)
+        cols = [inv.t(), inv.S(), inv.I()] + ([inv.R()] if kind != 'SIS' else [])
+        full = {'hist': hist, 'trans': trans, 'rows': R.canon_arrays(cols)}
+        bad = None
+        if isinstance(plain['rows'], tuple) or isinstance(trans, str) or any(isinstance(h, str) for h in hist.values()) or isinstance(full['rows'], tuple):
+            bad = ('unusable outputs', plain['rows'] if isinstance(plain['rows'], tuple) else None, trans if isinstance(trans, str) else None)
+    except Exception as e:
+        plain = full = None; bad = ('raised', type(e).__name__, str(e)[:100])
+    return bad, plain, full
+
+
+def seeded_verdict(case, bad, plain, full):
+    lines = [dxchk_line(case) if bad else dxchk_line(case, plain['rows'], None, None),
+             dxchk_line(case) if bad else dxchk_line(case, full['rows'], full['trans'], full['hist'])]
+    return lines
+
+
+def merge_seeded(a, b, bad):
+    if 'fail' in a or 'fail' in b:
+        d = {'fail': (a.get('fail'), b.get('fail'))}
+    else:
+        d = {'wf': a.get('wf'), 'traj': a.get('traj'), 'init': (a.get('init') is not False) and b.get('init'), 'tx': b.get('tx'), 'cons': b.get('cons')}
+        if b.get('init') is None: d['init'] = a.get('init')
+    if bad is not None: d['impl_failed'] = bad
+    return d
+
+
 def seeded_battery(EoN, rng, tier):
     """the implementation under the REAL random module (seeded), larger graphs (12-40 nodes, density ~ 3/n),
     the four simulators with the default rule and a random p, 1-3 initial infected, 0-2 initial recovered,
@@ -146,38 +186,13 @@ def seeded_battery(EoN, rng, tier):
         seed = rng.randint(0, 10 ** 6)
         case = {'kind': kind, 'gc': gc, 'i0': sel, 'r0': r0, 'rho': None, 'tmin': tmin, 'tmax': tmax, 'rec': None,
                 'seeded': {'p': p, 'seed': seed}}
-        kw = dict(initial_infecteds=list(sel), tmin=float(tmin))
-        if tmax is not None: kw['tmax'] = float(tmax)
-        if r0 is not None: kw['initial_recovereds'] = list(r0)
-        f = {'DSIR': lambda **k: EoN.discrete_SIR(gc.G, args=(p,), **k), 'BSIR': lambda **k: EoN.basic_discrete_SIR(gc.G, p, **k),
-             'SIS': lambda **k: EoN.basic_discrete_SIS(gc.G, p, **k), 'PSIR': lambda **k: EoN.percolation_based_discrete_SIR(gc.G, p, **k)}[kind]
-        try:
-            pyrandom.seed(seed); arrs = f(return_full_data=False, **kw)
-            pyrandom.seed(seed + 1); inv = f(return_full_data=True, **kw)
-            plain = {'rows': R.canon_arrays(arrs)}
-            hist, trans = R.canon_full(inv, gc, DL.CODE)
-            cols = [inv.t(), inv.S(), inv.I()] + ([inv.R()] if kind != 'SIS' else [])
-            full = {'hist': hist, 'trans': trans, 'rows': R.canon_arrays(cols)}
-            bad = None
-            if isinstance(plain['rows'], tuple) or isinstance(trans, str) or any(isinstance(h, str) for h in hist.values()) or isinstance(full['rows'], tuple):
-                bad = ('unusable outputs', plain['rows'] if isinstance(plain['rows'], tuple) else None, trans if isinstance(trans, str) else None)
-        except Exception as e:
-            plain = full = None; bad = ('raised', type(e).__name__, str(e)[:100])
+        bad, plain, full = run_seeded_case(EoN, case)
         runs.append((case, bad, plain, full))
-        # two driver lines: plain arrays (traj, init on row 0), full-data object (init, tx, cons against its own summary)
-        lines.append(dxchk_line(case) if bad else dxchk_line(case, plain['rows'], None, None))
-        lines.append(dxchk_line(case) if bad else dxchk_line(case, full['rows'], full['trans'], full['hist']))
+        lines += seeded_verdict(case, bad, plain, full)
     outs = C.run_model(lines, XCOMP) if lines else []
     res = []
     for i, (case, bad, plain, full) in enumerate(runs):
-        a, b = parse(outs[2 * i]), parse(outs[2 * i + 1])
-        if 'fail' in a or 'fail' in b:
-            d = {'fail': (a.get('fail'), b.get('fail'))}
-        else:
-            d = {'wf': a.get('wf'), 'traj': a.get('traj'), 'init': (a.get('init') is not False) and b.get('init'), 'tx': b.get('tx'), 'cons': b.get('cons')}
-            if b.get('init') is None: d['init'] = a.get('init')
-        if bad is not None: d['impl_failed'] = bad
-        res.append((case, d, plain, full))
+        res.append((case, merge_seeded(parse(outs[2 * i]), parse(outs[2 * i + 1]), bad), plain, full))
     return res
 
 
@@ -290,9 +305,17 @@ def part(run, tier, pid, props, per):
 def replay(rp):
     EoN = C.import_eon(); import EoN.simulation as sim
     j = rp['replay']
-    case = DL.case_from_json(j)
     C.build_driver(XCOMP)
-    (_, v, plain, full), = chk_impl(EoN, sim, [case])
+    if j.get('seeded'):
+        ev = lambda l: None if l is None else [eval(x) for x in l]
+        case = {'kind': j['kind'], 'gc': R.GraphCase.from_json(j['graph']), 'i0': ev(j['i0']), 'r0': ev(j['r0']), 'rho': None,
+                'tmin': F(j['tmin']), 'tmax': None if j['tmax'] is None else F(j['tmax']), 'rec': None, 'seeded': j['seeded']}
+        bad, plain, full = run_seeded_case(EoN, case)
+        a, b = C.run_model(seeded_verdict(case, bad, plain, full), XCOMP)
+        v = merge_seeded(parse(a), parse(b), bad)
+    else:
+        case = DL.case_from_json(j)
+        (_, v, plain, full), = chk_impl(EoN, sim, [case])
     print('verdict of the extracted checkers on the implementation outputs:', v)
     return 1 if any(v.get(k) is False for k in ('traj', 'init', 'tx', 'cons')) or 'impl_failed' in v else 0
 
